@@ -156,6 +156,21 @@ def replay_structure(kind, dim, cond, width=2, depth=1, rqs=False, completeness=
         x = jnp.arange(1.0, dim + 1) * 0.37
         c = (jnp.arange(1.0, cond + 1) * 0.21) if cond else None
         J = np.asarray(jax.jacobian(lambda v: bb.transform(v, c))(x))
+        if kind == "maf":
+            # the transformer parameters of coordinate i may depend on x_j only for j < i (strictly): Jacobian of the real conditioner
+            from flowjax.wrappers import unwrap as _unw
+            mlp = _unw(bb).masked_autoregressive_mlp
+            Jp = np.asarray(jax.jacobian(lambda v: mlp(v if c is None else jnp.hstack((v, c))))(x)).reshape(dim, -1, dim)
+            leak = [(i, j) for i in range(dim) for j in range(i, dim) if np.any(np.abs(Jp[i, :, j]) > 1e-12)]
+            if leak:
+                bad = True
+                msgs.append(f"{fill}: transformer parameters of coordinate i depend on x_j with j >= i for (i, j) in {leak}")
+            # consequence: the reported log-det is no longer log|det J|
+            ld = float(bb.transform_and_log_det(x, c)[1])
+            sgn, lad = np.linalg.slogdet(J)
+            if abs(ld - lad) > 1e-8 * (1 + abs(lad)):
+                bad = True
+                msgs.append(f"{fill}: reported log-det {ld} but log|det J| = {lad}")
         if kind in ("maf", "bnaf"):
             up = np.triu(J, 1)
             if np.any(np.abs(up) > 1e-12):
